@@ -13,6 +13,11 @@ def run(ctx):
     ctx.prove('props/C02.v')
     L.lockstep(ctx, [L.mon_c02])
     L.reg_sweep(ctx, L.REG_KINDS['C02'])
+    # "each action runs exactly once" as the users of the iterators see it: the one action an instance owns per signal must
+    # stay one when two handle clones add the signal at the same time (one record, one wake-up per delivery)
+    import c12
+    if ctx.harness(['ls_addsig']):
+        c12.concurrent_add(ctx, 'records')
     ctx.coverage['rule'] = ('lock-step scenarios with 1-3 actions per signal, concurrent register/unregister/unregister_signal on one or two signals; '
                             'monitor: the tags a delivery ran, in order, must equal the action list of some registry state current between its begin and end '
                             '(reference states computed from the publish events of the real trace)')
